@@ -638,13 +638,25 @@ def _div(a, b):
     return a / b
 
 
+def _isinf(v):
+    return isinstance(v, (float, rnp.floating)) and _math.isinf(float(v))
+
+
 def s_min(a, b):
+    if _isinf(a) and is_sym(b):
+        return b if a > 0 else a
+    if _isinf(b) and is_sym(a):
+        return a if b > 0 else b
     if is_sym(a) or is_sym(b):
         return ite(SR(toreal(tz(a))) <= SR(toreal(tz(b))), a, b)
     return min(a, b)
 
 
 def s_max(a, b):
+    if _isinf(a) and is_sym(b):
+        return b if a < 0 else a
+    if _isinf(b) and is_sym(a):
+        return a if b < 0 else b
     if is_sym(a) or is_sym(b):
         return ite(SR(toreal(tz(a))) >= SR(toreal(tz(b))), a, b)
     return max(a, b)
